@@ -20,8 +20,9 @@ PROP = "C13"
 RUNS = {"quick": 1500, "thorough": 60000}
 DEADLINE = {"quick": 200, "thorough": 3000}
 OPS_KEYS = ("cuts", "crashes", "outputs")
-RULE = ("case = (solver x noise type x SDE spec, dtype, t0, dt, steps, horizon, stub or real Brownian motion, cut "
-        "indices on the grid, crash list (chunk, peer, call index), intermediate output positions) from seeded named "
+RULE = ("case = (solver x noise type x SDE spec, state dtype, time dtype, t0, dt (or omitted), steps, horizon, logqp, "
+        "adaptive-only options, stub or real Brownian motion, cut indices on the grid, crash list (chunk, peer, call "
+        "index), intermediate output positions) from seeded named "
         "PRNG streams; distinct = distinct hash of the case; non-trivial = at least 2 chunks on a grid of >= 3 steps AND "
         "(a crash fired OR >= 3 chunks OR the solver carries extra state)")
 ASSUMPTIONS = ["restart points lie on the step grid (as the property requires); chunk ts are built from the grid floats "
